@@ -72,32 +72,32 @@ Proof. reflexivity. Qed.
 (* a non-matching let is an error, never a silent binding *)
 Theorem let_mismatch_is_error fuel rho p e1 e2 v :
   eval fuel rho e1 = Ok v -> bind_pat fuel rho p v = Err -> eval (S fuel) rho (ELet p e1 e2) = Err.
-Proof. intros H1 H2. cbn [eval]. rewrite H1. simpl. rewrite H2. reflexivity. Qed.
+Proof. intros H1 H2. cbn [eval evalF]. rewrite H1. simpl. rewrite H2. reflexivity. Qed.
 
 Theorem let_match_binds fuel rho p e1 e2 v sc :
   eval fuel rho e1 = Ok v -> bind_pat fuel rho p v = Ok sc ->
   eval (S fuel) rho (ELet p e1 e2) = eval fuel (sc ++ rho) e2.
-Proof. intros H1 H2. cbn [eval]. rewrite H1. simpl. rewrite H2. reflexivity. Qed.
+Proof. intros H1 H2. cbn [eval evalF]. rewrite H1. simpl. rewrite H2. reflexivity. Qed.
 
 (* cond takes the first arm whose pattern matches *)
 Theorem cond_first_match fuel rho c v p body arms sc :
   eval fuel rho c = Ok v -> bind_pat fuel rho p v = Ok sc ->
   eval (S fuel) rho (ECondPat c ((p, body) :: arms)) = eval fuel (sc ++ rho) body.
-Proof. intros H1 H2. cbn [eval]. rewrite H1. simpl. rewrite H2. reflexivity. Qed.
+Proof. intros H1 H2. cbn [eval evalF]. rewrite H1. simpl. rewrite H2. reflexivity. Qed.
 
 Theorem cond_skips_nonmatching fuel rho c v p body arms :
   eval fuel rho c = Ok v -> bind_pat fuel rho p v = Err ->
   eval (S fuel) rho (ECondPat c ((p, body) :: arms)) = eval (S fuel) rho (ECondPat c arms).
-Proof. intros H1 H2. cbn [eval]. rewrite H1. simpl. rewrite H2. reflexivity. Qed.
+Proof. intros H1 H2. cbn [eval evalF]. rewrite H1. simpl. rewrite H2. reflexivity. Qed.
 
 Theorem cond_no_arm fuel rho c v :
   eval fuel rho c = Ok v -> eval (S fuel) rho (ECondPat c []) = Ok (D (VSet [])).
-Proof. intros H1. cbn [eval]. rewrite H1. reflexivity. Qed.
+Proof. intros H1. cbn [eval evalF]. rewrite H1. reflexivity. Qed.
 
 (* ---------- array patterns: wrong length, offset or holes never match ---------- *)
 
 Theorem array_pattern_needs_dense_array fuel rho items v sc :
   bind_pat (S fuel) rho (PArr items) (D v) = Ok sc -> exists xs, dense_array v = Some xs.
 Proof.
-  cbn [bind_pat]. simpl. destruct (dense_array v) as [xs|]; [eauto | discriminate].
+  cbn [bind_pat bindF]. simpl. destruct (dense_array v) as [xs|]; [eauto | discriminate].
 Qed.
